@@ -86,3 +86,21 @@ func tcpRound(id string, w *World, v *Node, out *Out, stats *Stats) {
 	stats.Count("tcp/round")
 	stats.Ops += 8
 }
+
+// realSender: the node served by the repository's own Host over loopback TCP, and the repository's
+// own client (p2p.Neighbor, what the access node and the neighbors really hold) connected to it
+func realSender(n *Node) (*p2p.Neighbor, bool) {
+	port := freePort()
+	host, err := api.NewHost(n.Chain, n.Senders, n.Pool, n.Ureg, port, []byte(`{}`), 2*time.Second)
+	if err != nil {
+		return nil, false
+	}
+	node := presentation.NewNode(host)
+	go func() { _ = node.Run() }()
+	time.Sleep(30 * time.Millisecond)
+	nb, err := p2p.NewNeighbor("127.0.0.1", port, 2*time.Second, &CapLogger{})
+	if err != nil {
+		return nil, false
+	}
+	return nb, true
+}
